@@ -34,6 +34,20 @@ theorem message_decoding_total_checked (bs : List UInt8) :
     (decCMsg true).run bs ≠ .panic ∧ (decMMsg true).run bs ≠ .panic ∧ (decBlock true).run bs ≠ .panic :=
   ⟨decCMsg_noPanic bs, decMMsg_noPanic bs, decBlock_noPanic bs⟩
 
+/-- The code as it is NOW: `currentCheckedSlice` is read from crypto/src/lib.rs by the translator on
+every run (Generated/Switches.lean).  Decoding of keys, of consensus and mempool frames and of stored
+blocks is total: a value or an error for every byte string.  (With the unchecked `bytes[..n]` slice
+this theorem no longer type-checks and the check reports the failing input.) -/
+theorem decoding_total_current_code (s bs : List UInt8) :
+    decodePublicKey currentCheckedSlice s ≠ .panic ∧ decodeSecretKey currentCheckedSlice s ≠ .panic ∧
+    (decCMsg currentCheckedSlice).run bs ≠ .panic ∧ (decMMsg currentCheckedSlice).run bs ≠ .panic ∧
+    (decBlock currentCheckedSlice).run bs ≠ .panic := by
+  have h : currentCheckedSlice = true := rfl
+  rw [h]
+  exact ⟨(key_decoding_total_checked s).1, (key_decoding_total_checked s).2,
+    (message_decoding_total_checked bs).1, (message_decoding_total_checked bs).2.1,
+    (message_decoding_total_checked bs).2.2⟩
+
 /-- … and so does the whole sync path (stored bytes → `Helper` → frame → receiver). -/
 theorem sync_path_total_checked (bs : List UInt8) : syncPath true bs ≠ .panic := by
   unfold syncPath
